@@ -882,6 +882,7 @@ theorem lockinv_step {s s' : Sys} {a : Act} (hi : LockInv s) (h : astep s a = so
   case txnPinned th m t => simp only [stepTxnPinned] at h; lock_auto
   case txnLocked th => simp only [stepTxnLocked] at h; lock_auto
   case lockBegin th => simp only [stepLockBegin] at h; lock_auto
+  case scanBatch th n => simp only [stepScanBatch] at h; lock_auto
   case commitBegin th => simp only [stepCommitBegin] at h; lock_auto
   case commitA th => simp only [stepCommitA] at h; lock_auto
   case append th => simp only [stepAppend] at h; lock_auto
